@@ -1,5 +1,6 @@
 (* C13 — Ill-formed schemas and models are rejected; accepted models always terminate.
    Only statements, [exact]s and Print Assumptions live here. *)
+From NDN Require Import Proofs.LvsExamples.
 From NDN Require Import Base.Prelude Base.Text Model.LvsAst Model.LvsChecker Model.LvsCompiler Spec.LvsSem Spec.LvsTree.
 From NDN Require Import Proofs.LvsMachine Proofs.LvsTreePaths Proofs.LvsCheckerThms Proofs.LvsSanity Proofs.LvsConstsAgree
   Proofs.LvsFlatten Proofs.LvsGenTree Proofs.LvsCompileTree Proofs.LvsCompileThms Proofs.LvsTopOrder Proofs.LvsSortRules
@@ -13,12 +14,16 @@ Local Open Scope N_scope.
 Theorem C13_loader_sound m r : sanity_check (sanity_fuel m) m = Ok r -> sane m.
 Proof. exact (sanity_check_sound m r). Qed.
 Print Assumptions C13_loader_sound.
+Example C13_loader_sound_example : exists r, sanity_check (sanity_fuel ex_model) ex_model = Ok r.
+Proof. exact ex_loader_accepts. Qed.
 
 (* a model that breaks a rule is rejected with LvsModelError (never RecursionError / TypeError: the
    recursion depth is bounded by the number of nodes) *)
 Theorem C13_loader_rejects m : ~ sane m -> sanity_check (sanity_fuel m) m = Err ELvsModel.
 Proof. exact (sanity_check_rejects m). Qed.
 Print Assumptions C13_loader_rejects.
+Example C13_loader_rejects_example : ~ sane ex_nostart /\ sanity_check (sanity_fuel ex_nostart) ex_nostart = Err ELvsModel.
+Proof. exact (conj ex_nostart_not_sane ex_nostart_rejected). Qed.
 
 (* a model that satisfies the rules passes the tree part; it is accepted iff compiler.top_order accepts its
    signing graph ("no cyclic signing"), whose failure is the schema error, not the model error *)
@@ -49,6 +54,9 @@ Theorem C13_terminates_check ufn m (Hs : sane m) fuel pkt key p k :
   lvs_check ufn m fuel pkt key = lvs_check ufn m (Nat.max (match_cost m p) (match_cost m k)) pkt key.
 Proof. exact (lvs_check_halts ufn m Hs fuel pkt key p k). Qed.
 Print Assumptions C13_terminates_check.
+Example C13_terminates_example : exists l, lvs_match no_ufn ex_model 1000 ex_pkt = Ok l /\ (match_cost ex_model ex_pkt <= 1000)%nat /\
+  strip_digest ex_pkt = Ok ex_pkt /\ exists rs, In (rs, [(Some p_x, gc 100); (Some p_y, gc 98)]) l /\ In i_pkt rs.
+Proof. exact ex_match. Qed.
 
 (* ---- the compiler (compile = sort references, number patterns, replicate, build tree, resolve signers) ---- *)
 
@@ -62,11 +70,16 @@ Theorem C13_compile_rejects_undefined_or_temporary_rule S d c :
   In d S -> In c (rule_refs d) -> defined S c = false -> compile S = Err ESemantic.
 Proof. exact (compile_rejects_bad_reference S d c). Qed.
 Print Assumptions C13_compile_rejects_undefined_or_temporary_rule.
+Example C13_compile_rejects_undefined_example :
+  In (rule_ref i_a i_b) ex_undefined /\ In i_b (rule_refs (rule_ref i_a i_b)) /\ defined ex_undefined i_b = false.
+Proof. exact ex_undefined_hyp. Qed.
 
 (* a -> c1 -> ... -> cn -> a along rule references *)
 Theorem C13_compile_rejects_cyclic_references S a cyc : src_walk S a a cyc -> compile S = Err ESemantic.
 Proof. exact (compile_rejects_cyclic_references S a cyc). Qed.
 Print Assumptions C13_compile_rejects_cyclic_references.
+Example C13_compile_rejects_cyclic_example : src_walk ex_cyclic i_a i_a [i_b].
+Proof. exact ex_cyclic_hyp. Qed.
 
 (* [LvsSem.cons_ok S d tc = false]: tc constrains a temporary pattern that is not in d's own name, or a named pattern
    that occurs in no rule name, or one of its options / function arguments is a temporary pattern or a named pattern that
@@ -75,12 +88,19 @@ Theorem C13_compile_rejects_bad_constraint S d cs tc :
   In d S -> In cs (r_cons d) -> In tc cs -> LvsSem.cons_ok S d tc = false -> compile S = Err ESemantic.
 Proof. exact (compile_rejects_bad_constraint S d cs tc). Qed.
 Print Assumptions C13_compile_rejects_bad_constraint.
+Example C13_compile_rejects_bad_constraint_example :
+  In ex_badcons_rule ex_badcons /\ In [ex_badcons_tc] (r_cons ex_badcons_rule) /\ In ex_badcons_tc [ex_badcons_tc] /\
+  LvsSem.cons_ok ex_badcons ex_badcons_rule ex_badcons_tc = false.
+Proof. exact ex_badcons_hyp. Qed.
 
 (* a signer that is not an ordinary rule of the schema (k as the lexer produces it: no '#' after the first character) *)
 Theorem C13_compile_rejects_unknown_signer S d k :
   In d S -> In k (r_sign d) -> defined S k = false -> ident_plain k -> compile S = Err ESemantic.
 Proof. exact (compile_rejects_unknown_signer S d k). Qed.
 Print Assumptions C13_compile_rejects_unknown_signer.
+Example C13_compile_rejects_unknown_signer_example :
+  In ex_badsigner_rule ex_badsigner /\ In i_b (r_sign ex_badsigner_rule) /\ defined ex_badsigner i_b = false /\ ident_plain i_b.
+Proof. exact ex_badsigner_hyp. Qed.
 
 (* a schema free of static errors compiles -- [static_ok] only looks at the reference structure, never at the spelling or
    the order of rule names -- and the result satisfies every sanity rule of the loader.  [schema_wf]: literal components are
@@ -91,6 +111,8 @@ Proof.
   exists m. split; [exact Hm|]. exact (compile_sane (fun _ => None) S chains st m Hc Hm Hok).
 Qed.
 Print Assumptions C13_compile_accepts.
+Example C13_compile_accepts_example : static_ok ex_schema = true /\ schema_wf ex_schema = true /\ compile ex_schema = Ok ex_model.
+Proof. exact (conj ex_static (conj ex_wf ex_compile)). Qed.
 
 (* T1 tie re-established on this run *)
 Theorem C13_tie_version :
